@@ -83,17 +83,19 @@ type c14rStep struct {
 	Ctor    string    `json:"ctor"`
 	Sel     []c14rObs `json:"sel"`
 }
-type c14rConcSel struct {
-	Seen []string `json:"seen"` // distinct (IPv4 phantom, IPv6 phantom) answers of processBdReq asking for both families
-	A    string   `json:"a"`    // the pair a selector loaded freshly from Files[0] gives for the derived seed
-	B    string   `json:"b"`
+type c14rSeg struct {
+	Mask uint64 `json:"mask"`
+	N    int    `json:"n"`
+	Sel  int    `json:"sel"`
+	Ans  string `json:"ans"`
 }
 type c14rOut struct {
-	Steps   []c14rStep    `json:"steps"`
-	Conc    []c14rConcSel `json:"conc,omitempty"`
-	Reloads int           `json:"reloads"`
-	Ops     int64         `json:"ops"`
-	Stage   string        `json:"stage,omitempty"`
+	Steps   []c14rStep  `json:"steps"`
+	Workers [][]c14rSeg `json:"workers,omitempty"`
+	Fresh   [][]string  `json:"fresh,omitempty"` // Fresh[k][i]: the (IPv4, IPv6) pair a selector loaded from Files[k] gives
+	Reloads int         `json:"reloads"`
+	Ops     int64       `json:"ops"`
+	Stage   string      `json:"stage,omitempty"`
 }
 
 // processBdReq for BOTH families at once: "ok/<v4>/<v6>" or "err"
@@ -130,74 +132,82 @@ func c14rFreshPair(sel *phantoms.PhantomIPSelector, s c14rSel) string {
 	return fmt.Sprintf("ok/%s/%s", a.IP, b.IP)
 }
 
-// requests for both families from several goroutines while ReloadSubnets alternates between two files
+// requests for both families from several goroutines while ReloadSubnets takes the processor through Files[1..] in order
 func c14rConcRun(c c14rCase, dir string, m *metrics.Metrics) (out c14rOut) {
-	paths := []string{c14rPlace(dir, "a.toml", c.Files[0]), c14rPlace(dir, "b.toml", c.Files[1])}
-	fa, erra := phantoms.SubnetsFromTomlFile(paths[0])
-	fb, errb := phantoms.SubnetsFromTomlFile(paths[1])
+	var paths []string
+	sels := c.Sels[0]
+	for k, f := range c.Files {
+		paths = append(paths, c14rPlace(dir, fmt.Sprintf("conc_%d.toml", k), f))
+		fs, err := phantoms.SubnetsFromTomlFile(paths[k])
+		if err != nil {
+			out.Stage = fmt.Sprintf("setup: file %d: %v", k, err)
+			return out
+		}
+		row := make([]string, len(sels))
+		for i, s := range sels {
+			row[i] = c14rFreshPair(fs, s)
+		}
+		out.Fresh = append(out.Fresh, row)
+	}
 	os.Setenv("PHANTOM_SUBNET_LOCATION", paths[0])
 	p, err := NewRegProcessorNoAuth("127.0.0.1", 0, m, false, nil, nil, 0, 0)
-	if err != nil || erra != nil || errb != nil {
-		out.Stage = fmt.Sprintf("setup:%v %v %v", err, erra, errb)
+	if err != nil {
+		out.Stage = fmt.Sprintf("setup: %v", err)
 		return out
 	}
 	defer p.sock.Close()
 	_ = p.AddTransport(pb.TransportType_Min, min.Transport{})
-	sels := c.Sels[0]
+	mask := func(i int, ans string) (mk uint64) {
+		for k := range out.Fresh {
+			if out.Fresh[k][i] == ans {
+				mk |= 1 << uint(k)
+			}
+		}
+		return mk
+	}
 	var ops int64
 	var done int32
-	var mu sync.Mutex
-	seen := make([]map[string]bool, len(sels))
-	for i := range seen {
-		seen[i] = map[string]bool{}
-	}
+	out.Workers = make([][]c14rSeg, c.Workers)
 	var wg sync.WaitGroup
 	for w := 0; w < c.Workers; w++ {
 		wg.Add(1)
 		go func(w int) {
 			defer wg.Done()
-			local := make([]map[string]bool, len(sels))
-			for i := range local {
-				local[i] = map[string]bool{}
-			}
+			var segs []c14rSeg
 			for round := 0; round < c.Rounds || atomic.LoadInt32(&done) == 0; round++ {
 				for j := range sels {
 					i := (j + w) % len(sels)
-					local[i][c14rPair(p, sels[i])] = true
+					ans := c14rPair(p, sels[i])
+					mk := mask(i, ans)
+					if n := len(segs); n > 0 && segs[n-1].Mask == mk && mk != 0 {
+						segs[n-1].N++
+					} else if len(segs) < 20000 {
+						segs = append(segs, c14rSeg{Mask: mk, N: 1, Sel: i, Ans: ans})
+					}
 					atomic.AddInt64(&ops, 1)
 				}
 			}
-			mu.Lock()
-			for i := range local {
-				for k := range local[i] {
-					seen[i][k] = true
-				}
-			}
-			mu.Unlock()
+			out.Workers[w] = segs
 		}(w)
 	}
 	out.Stage = c14rGuard(func() {
-		for k := 0; k < c.Reloads; k++ {
+		for k := 1; k < len(paths); k++ {
 			start := atomic.LoadInt64(&ops)
-			for spin := 0; atomic.LoadInt64(&ops) < start+int64(2*c.Workers) && spin < 1000000; spin++ {
+			for spin := 0; atomic.LoadInt64(&ops) < start+int64(3*len(sels)) && spin < 5000000; spin++ {
 				runtime.Gosched()
 			}
-			os.Setenv("PHANTOM_SUBNET_LOCATION", paths[(k+1)%2])
+			os.Setenv("PHANTOM_SUBNET_LOCATION", paths[k])
 			_ = p.ReloadSubnets()
 			out.Reloads++
+		}
+		start := atomic.LoadInt64(&ops)
+		for spin := 0; atomic.LoadInt64(&ops) < start+int64(3*len(sels)) && spin < 5000000; spin++ {
+			runtime.Gosched()
 		}
 	})
 	atomic.StoreInt32(&done, 1)
 	wg.Wait()
 	out.Ops = atomic.LoadInt64(&ops)
-	for i, s := range sels {
-		cs := c14rConcSel{A: c14rFreshPair(fa, s), B: c14rFreshPair(fb, s)}
-		for k := range seen[i] {
-			cs.Seen = append(cs.Seen, k)
-		}
-		sort.Strings(cs.Seen)
-		out.Conc = append(out.Conc, cs)
-	}
 	return out
 }
 
